@@ -439,7 +439,7 @@ def gen_iter(rng, depth):
             'cond': gen_expr(rng, depth + 1, False) if rng.random() < 0.3 else None}
 
 
-def gen_body(rng, depth, kind, budget):
+def gen_body(rng, depth, kind, budget, pools=None):
     items = []
     n = rng.randint(1, 4)
     for _ in range(n):
@@ -460,10 +460,10 @@ def gen_body(rng, depth, kind, budget):
         elif r < 0.57:
             items.append({'k': 'comment', 'col': rng.choice([0, 2, 4, 4, 8, 8, 12, 16])})
         elif r < 0.63 and depth < 3:
-            items.append({'k': 'if', 'x': rng.choice(NAMES), 'body': gen_body(rng, depth + 1, kind, budget),
-                          'orelse': gen_body(rng, depth + 1, kind, budget) if rng.random() < 0.3 else None})
+            items.append({'k': 'if', 'x': rng.choice(NAMES), 'body': gen_body(rng, depth + 1, kind, budget, pools),
+                          'orelse': gen_body(rng, depth + 1, kind, budget, pools) if rng.random() < 0.3 else None})
         elif depth < 3:
-            items.append(gen_def(rng, depth, budget))
+            items.append(gen_def(rng, depth, budget, pools))
         else:
             items.append({'k': 'expr', 'e': gen_expr(rng)})
     if not any(it['k'] not in ('blank', 'comment') for it in items):
@@ -472,10 +472,14 @@ def gen_body(rng, depth, kind, budget):
     return items
 
 
-def gen_def(rng, depth, budget):
+def gen_def(rng, depth, budget, pools=None):
+    """pools = (function names, class names): the spellings definitions are called (default FNAMES /
+    CNAMES); C18 passes pools that share names between functions, classes and the components of the
+    module's dotted path"""
+    fnames, cnames = pools or (FNAMES, CNAMES)
     if rng.random() < 0.6:
         kind = 'function'
-        name = rng.choice(FNAMES)
+        name = rng.choice(fnames)
         params = []
         for x in rng.sample(['p', 'q', 'r'], rng.choice([0, 1, 1, 2, 3])):
             params.append({'name': x,
@@ -493,7 +497,7 @@ def gen_def(rng, depth, budget):
         ret = gen_expr(rng, 1, False) if rng.random() < 0.15 else None
     else:
         kind = 'class'
-        name = rng.choice(CNAMES)
+        name = rng.choice(cnames)
         params = []
         ret = None
         r = rng.random()
@@ -511,15 +515,15 @@ def gen_def(rng, depth, budget):
             decos.append({'e': 'name', 'x': 'dec'})
         else:
             decos.append({'e': 'call', 'f': 'dec2', 'args': [gen_expr(rng, 1, False)] if rng.random() < 0.6 else []})
-    body = gen_body(rng, depth + 1, kind, budget)
+    body = gen_body(rng, depth + 1, kind, budget, pools)
     return {'k': 'def', 'kind': kind, 'name': name, 'async': kind == 'function' and rng.random() < 0.25,
             'decos': decos, 'params': params, 'bases': bases, 'ret': ret,
             'oneline': rng.random() < 0.2, 'body': body}
 
 
-def gen_program(rng, size=12):
+def gen_program(rng, size=12, pools=None):
     for _ in range(200):
-        body = list(PRELUDE) + gen_body(rng, 0, 'module', [size])
+        body = list(PRELUDE) + gen_body(rng, 0, 'module', [size], pools)
         prog = {'body': body, 'trail': rng.choice([0, 0, 0, 1, 4, 5, 8, 9])}
         src, _ = render(prog)
         try:
